@@ -37,9 +37,20 @@ theorem sweepEntry_length (op : Op R) (i : Nat) (d d' : List R) (h : sweepEntry 
   unfold sweepEntry at h
   split at h
   · simp only at h
+    -- the left accumulation (or its skip)
+    have hl : ∀ d1, (if op.leftParent = i then Outcome.ok d
+        else accumulate d op.leftParent (d[i] * op.leftDerivative)) = .ok d1 →
+        d1.length = d.length := by
+      intro d1 h1
+      split at h1
+      · cases h1; rfl
+      · exact accumulate_length _ _ _ _ h1
     split at h
     · rename_i d1 h1
-      rw [accumulate_length _ _ _ _ h, accumulate_length _ _ _ _ h1]
+      have := hl d1 h1
+      split at h
+      · cases h; exact this
+      · rw [accumulate_length _ _ _ _ h, this]
     · cases h
   · cases h
 
@@ -381,5 +392,183 @@ theorem mkVars_eq_exec (t : Nat) (env : Nat → R) (xs : List R) :
         rw [show recs.length + 1 + j = recs.length + (j + 1) by omega, this]
         simp)]
     simp [List.append_assoc]
+
+/-! ### frame: a computation on tape `t` neither reads nor writes any other tape -/
+
+/-- the record is a constant or lives on tape `t` -/
+def OnTape (t : Nat) (r : Rec R) : Prop := r.history = none ∨ r.history = some t
+
+theorem OnTape.getRec_default (t : Nat) (recs : List (Rec R)) (h : ∀ r ∈ recs, OnTape t r)
+    (k : Nat) : OnTape t (getRec recs k) := by
+  unfold getRec
+  by_cases hk : k < recs.length
+  · rw [List.getD_eq_getElem?_getD, List.getElem?_eq_getElem hk]
+    exact h _ (List.getElem_mem hk)
+  · rw [getD_of_le _ _ (by omega)]
+    exact Or.inl rfl
+
+theorem sameList_onTape {t : Nat} {a b : Rec R} (ha : OnTape t a) (hb : OnTape t b) :
+    Rec.sameList a b = true := by
+  unfold Rec.sameList
+  rcases ha with ha | ha <;> rcases hb with hb | hb <;> simp [ha, hb]
+
+/-- two runs of one step from worlds that agree on tape `t`: same outcome, the new worlds agree
+    on `t`, the result is again a constant or on `t` -/
+def StepRel (t : Nat) (x1 x2 : World R × Outcome (Rec R)) : Prop :=
+  x1.2 = x2.2 ∧ x1.1 t = x2.1 t ∧ ∀ r, x1.2 = .ok r → OnTape t r
+
+theorem unary_frame (a : Rec R) (F D : R → R) (w1 w2 : World R) (t : Nat) (ha : OnTape t a)
+    (hw : w1 t = w2 t) : StepRel t (okStep (a.unary F D w1)) (okStep (a.unary F D w2)) := by
+  unfold StepRel okStep Rec.unary
+  rcases ha with ha | ha
+  · simp only [ha]
+    exact ⟨by trivial, hw, fun r hr => by cases hr; exact Or.inl rfl⟩
+  · simp only [ha, Rec.pushUnary, Tape.appendUnary, World.update_same, hw]
+    exact ⟨by trivial, by trivial, fun r hr => by cases hr; exact Or.inr rfl⟩
+
+theorem binary_frame (a b : Rec R) (F DX DY : R → R → R) (w1 w2 : World R) (t : Nat)
+    (ha : OnTape t a) (hb : OnTape t b) (hw : w1 t = w2 t) :
+    StepRel t (liftStep w1 (a.binary b F DX DY w1)) (liftStep w2 (a.binary b F DX DY w2)) := by
+  unfold StepRel Rec.binary
+  rw [sameList_onTape ha hb]
+  simp only [Bool.not_true, Bool.false_eq_true, if_false]
+  rcases ha with ha | ha <;> rcases hb with hb | hb
+  · simp only [ha, hb, liftStep]
+    exact ⟨by trivial, hw, fun r hr => by cases hr; exact Or.inl rfl⟩
+  · simp only [ha, hb, liftStep, Rec.pushUnary, Tape.appendUnary, World.update_same, hw]
+    exact ⟨by trivial, by trivial, fun r hr => by cases hr; exact Or.inr rfl⟩
+  · simp only [ha, hb, liftStep, Rec.pushUnary, Tape.appendUnary, World.update_same, hw]
+    exact ⟨by trivial, by trivial, fun r hr => by cases hr; exact Or.inr rfl⟩
+  · simp only [ha, hb, liftStep, Rec.pushBinary, Tape.appendBinary, World.update_same, hw]
+    exact ⟨by trivial, by trivial, fun r hr => by cases hr; exact Or.inr rfl⟩
+
+theorem sumLoop_frame (t : Nat) (items : List (Rec R)) :
+    ∀ (total : Rec R) (w1 w2 : World R), OnTape t total → (∀ r ∈ items, OnTape t r) →
+      w1 t = w2 t → StepRel t (Rec.sumLoop items total w1) (Rec.sumLoop items total w2) := by
+  induction items with
+  | nil =>
+    intro total w1 w2 ht _ hw
+    exact ⟨rfl, hw, fun r hr => by cases hr; exact ht⟩
+  | cons x xs ih =>
+    intro total w1 w2 ht hall hw
+    have hx := hall x (by simp)
+    have hall' : ∀ r ∈ xs, OnTape t r := fun r hr => hall r (by simp [hr])
+    simp only [Rec.sumLoop, Rec.sumStep]
+    rcases ht with ht | ht <;> rcases hx with hx | hx
+    · simp only [ht, hx]
+      exact ih _ _ _ (Or.inl rfl) hall' hw
+    · simp only [ht, hx, Rec.pushUnary, Tape.appendUnary, hw]
+      exact ih _ _ _ (Or.inr rfl) hall' (by simp)
+    · simp only [ht, hx, Rec.pushUnary, Tape.appendUnary, hw]
+      exact ih _ _ _ (Or.inr rfl) hall' (by simp)
+    · have hs : Rec.sameList total x = true := sameList_onTape (Or.inr ht) (Or.inr hx)
+      simp only [ht, hx, hs, Bool.not_true, Bool.false_eq_true, if_false, Rec.pushBinary,
+        Tape.appendBinary, hw]
+      exact ih _ _ _ (Or.inr rfl) hall' (by simp)
+
+/-- **Frame of one instruction.**  If the operands are constants or records of tape `t`, the
+    outcome of the instruction and the new content of tape `t` depend on the world only through
+    tape `t`. -/
+theorem exec_frame (ins : Instr R) (t : Nat) (env : Nat → R) (recs : List (Rec R))
+    (w1 w2 : World R) (hrecs : ∀ k, OnTape t (getRec recs k)) (hw : w1 t = w2 t) :
+    StepRel t (ins.exec t env recs w1) (ins.exec t env recs w2) := by
+  cases ins with
+  | const c => exact ⟨rfl, hw, fun r hr => by cases hr; exact Or.inl rfl⟩
+  | var =>
+    simp only [Instr.exec, okStep, Rec.mkVar, Tape.appendNullary, StepRel, World.update_same, hw]
+    exact ⟨by trivial, by trivial, fun r hr => by cases hr; exact Or.inr rfl⟩
+  | arith o a b =>
+    cases o
+    · simp only [Instr.exec, Rec.add_eq]; exact binary_frame _ _ _ _ _ _ _ _ (hrecs a) (hrecs b) hw
+    · simp only [Instr.exec, Rec.sub_eq]; exact binary_frame _ _ _ _ _ _ _ _ (hrecs a) (hrecs b) hw
+    · simp only [Instr.exec, Rec.mul_eq]; exact binary_frame _ _ _ _ _ _ _ _ (hrecs a) (hrecs b) hw
+    · simp only [Instr.exec, Rec.div_eq]; exact binary_frame _ _ _ _ _ _ _ _ (hrecs a) (hrecs b) hw
+  | arithNum o a c =>
+    cases o
+    · simp only [Instr.exec, Rec.addNum_eq]; exact unary_frame _ _ _ _ _ _ (hrecs a) hw
+    · simp only [Instr.exec, Rec.subNum_eq]; exact unary_frame _ _ _ _ _ _ (hrecs a) hw
+    · simp only [Instr.exec, Rec.mulNum_eq]; exact unary_frame _ _ _ _ _ _ (hrecs a) hw
+    · simp only [Instr.exec, Rec.divNum_eq]; exact unary_frame _ _ _ _ _ _ (hrecs a) hw
+  | swapped o c a =>
+    cases o
+    · simp only [Instr.exec, Rec.subSwapped_eq]; exact unary_frame _ _ _ _ _ _ (hrecs a) hw
+    · simp only [Instr.exec, Rec.divSwapped_eq]; exact unary_frame _ _ _ _ _ _ (hrecs a) hw
+  | neg a => simp only [Instr.exec, Rec.neg_eq]; exact unary_frame _ _ _ _ _ _ (hrecs a) hw
+  | sum as =>
+    simp only [Instr.exec, Rec.sum]
+    apply sumLoop_frame t _ _ _ _ (Or.inl rfl) _ hw
+    intro r hr
+    simp only [List.mem_map] at hr
+    obtain ⟨a, _, rfl⟩ := hr
+    exact hrecs a
+  | real f a =>
+    cases f
+    · simp only [Instr.exec, Rec.sin_eq]; exact unary_frame _ _ _ _ _ _ (hrecs a) hw
+    · simp only [Instr.exec, Rec.cos_eq]; exact unary_frame _ _ _ _ _ _ (hrecs a) hw
+    · simp only [Instr.exec, Rec.exp_eq]; exact unary_frame _ _ _ _ _ _ (hrecs a) hw
+    · simp only [Instr.exec, Rec.ln_eq]; exact unary_frame _ _ _ _ _ _ (hrecs a) hw
+    · simp only [Instr.exec, Rec.sqrt_eq]; exact unary_frame _ _ _ _ _ _ (hrecs a) hw
+  | pow a b =>
+    simp only [Instr.exec, Rec.pow_eq]; exact binary_frame _ _ _ _ _ _ _ _ (hrecs a) (hrecs b) hw
+  | powNum a c => simp only [Instr.exec, Rec.powNum_eq]; exact unary_frame _ _ _ _ _ _ (hrecs a) hw
+  | numPow c a => simp only [Instr.exec, Rec.numPow_eq]; exact unary_frame _ _ _ _ _ _ (hrecs a) hw
+  | unary f df a => simp only [Instr.exec]; exact unary_frame _ _ _ _ _ _ (hrecs a) hw
+  | binary f dfx dfy a b =>
+    simp only [Instr.exec]; exact binary_frame _ _ _ _ _ _ _ _ (hrecs a) (hrecs b) hw
+
+/-- **Frame of a program**: from worlds agreeing on tape `t` and the same records (constants or
+    on `t`), a program run on tape `t` has the same outcome (records or panic) and leaves tape
+    `t` with the same content. -/
+theorem execFrom_frame (t : Nat) (env : Nat → R) (p : Prog R) :
+    ∀ (recs : List (Rec R)) (w1 w2 : World R), (∀ r ∈ recs, OnTape t r) → w1 t = w2 t →
+      (Prog.execFrom t env p w1 recs).2 = (Prog.execFrom t env p w2 recs).2 ∧
+      (Prog.execFrom t env p w1 recs).1 t = (Prog.execFrom t env p w2 recs).1 t ∧
+      ∀ recs', (Prog.execFrom t env p w1 recs).2 = .ok recs' → ∀ r ∈ recs', OnTape t r := by
+  induction p with
+  | nil => intro recs w1 w2 hr hw; exact ⟨rfl, hw, fun recs' h => by cases h; exact hr⟩
+  | cons ins rest ih =>
+    intro recs w1 w2 hrecs hw
+    obtain ⟨h1, h2, h3⟩ := exec_frame ins t env recs w1 w2 (OnTape.getRec_default t recs hrecs) hw
+    simp only [Prog.execFrom]
+    rcases hx1 : Instr.exec t env recs w1 ins with ⟨w1', o1⟩
+    rcases hx2 : Instr.exec t env recs w2 ins with ⟨w2', o2⟩
+    rw [hx1, hx2] at h1 h2
+    rw [hx1] at h3
+    simp only at h1 h2 h3
+    subst h1
+    cases o1 with
+    | panic k => exact ⟨rfl, h2, fun recs' h => by cases h⟩
+    | ok r =>
+      simp only
+      apply ih _ _ _ _ h2
+      intro r' hr'
+      simp only [List.mem_append, List.mem_singleton] at hr'
+      rcases hr' with hr' | rfl
+      · exact hrecs r' hr'
+      · exact h3 _ rfl
+
+theorem derivatives_frame (r : Rec R) (w1 w2 : World R) (t : Nat) (hr : OnTape t r)
+    (hw : w1 t = w2 t) : r.derivatives w1 = r.derivatives w2 := by
+  rcases hr with hr | hr
+  · simp [Rec.derivatives, Rec.tryDerivatives, hr]
+  · rw [Rec.derivatives_some _ _ t hr, Rec.derivatives_some _ _ t hr, hw]
+
+theorem mkVars_frame (t : Nat) (xs : List R) :
+    ∀ (w1 w2 : World R), w1 t = w2 t →
+      (mkVars xs t w1).1 = (mkVars xs t w2).1 ∧ (mkVars xs t w1).2 t = (mkVars xs t w2).2 t ∧
+      ∀ r ∈ (mkVars xs t w1).1, OnTape t r := by
+  induction xs with
+  | nil => intro w1 w2 hw; exact ⟨rfl, hw, fun r hr => by simp [mkVars] at hr⟩
+  | cons x rest ih =>
+    intro w1 w2 hw
+    simp only [mkVars, Rec.mkVar, Tape.appendNullary, hw]
+    obtain ⟨h1, h2, h3⟩ := ih (w1.update t (w2 t ++ [⟨(w2 t).length, (w2 t).length, 0, 0⟩]))
+      (w2.update t (w2 t ++ [⟨(w2 t).length, (w2 t).length, 0, 0⟩])) (by simp)
+    refine ⟨by rw [h1], h2, ?_⟩
+    intro r hr
+    simp only [List.mem_cons] at hr
+    rcases hr with rfl | hr
+    · exact Or.inr rfl
+    · exact h3 r hr
 
 end EasyMl
